@@ -2,6 +2,8 @@
 No verdicts are produced here."""
 from collections import deque
 
+from . import flow
+
 QUEUE = 'osmium::thread::Queue'
 FUTQ = 'osmium::thread::Queue<std::future<'
 BUF = 'osmium::memory::Buffer'
@@ -200,4 +202,136 @@ def mask_guards(fn, nid, guards_of):
         mk = mask_kind(fn, c)
         if mk is not None:
             out.append((mk[0], sense))
+    return out
+
+
+# ------------------------------------------------------------------------------------------------ named locals / helpers
+
+def single_init(fn, d):
+    """Initialiser of a local that is initialised once and never written again, else None."""
+    return _single_init(fn, d)
+
+
+def guards(fn, nid):
+    """flow.guards_of, plus: a condition that is a named local (`const bool nested = b.has_nested_buffers(); if (nested)`) is
+    replaced by its initialiser (conjunctions / negations expanded), so that naming a sub-expression does not hide a test."""
+    out = list(flow.guards_of(fn, nid))
+    seen = set()
+    i = 0
+    while i < len(out) and i < 200:
+        c, sense, b = out[i]
+        i += 1
+        x = fn.sn(c)
+        while x is not None and x.get('k') == 'cast' and 'sub' in x:
+            x = fn.sn(x['sub'])
+        if x is not None and x.get('k') == 'var' and x.get('vk') == 'local' and x['d'] not in seen:
+            seen.add(x['d'])
+            init = _single_init(fn, x['d'])
+            if init is not None:
+                flow._expand(fn, init, sense, b, out)
+    return out
+
+
+def resolve(fn, nid, hops=8):
+    """Expression a value comes from: looks through wrappers, std::move / std::forward, elidable copies, single-element init
+    lists and single-assignment locals (to their initialiser)."""
+    while nid is not None and hops > 0:
+        hops -= 1
+        n = fn.sn(nid)
+        if n is None:
+            break
+        k = n.get('k')
+        if k == 'call' and n.get('q') in ('std::move', 'std::forward') and n.get('args'):
+            nid = n['args'][0]
+        elif k == 'var' and n.get('vk') == 'local':
+            init = _single_init(fn, n['d'])
+            if init is None:
+                break
+            nid = init
+        elif k == 'construct' and (n.get('elidable') or n.get('copymove')) and len(n.get('args', [])) == 1:
+            nid = n['args'][0]
+        elif k == 'initlist' and len(n.get('args', [])) == 1:
+            nid = n['args'][0]
+        else:
+            break
+    return fn.strip(nid) if nid is not None else None
+
+
+def source_root(fn, nid, hops=6):
+    """fn.root_var of the expression a value comes from; a local that merely names a sub-expression (pointer / reference / moved
+    value, initialised once) is looked through."""
+    r = None
+    while nid is not None and hops > 0:
+        hops -= 1
+        r = fn.root_var(nid)
+        if r is None or r[0] != 'var':
+            return r
+        init = _single_init(fn, r[1])
+        if init is None or not any(n.get('k') == 'decl' and any(v['d'] == r[1] for v in n['vars']) for n in fn.all_nodes()):
+            return r
+        nid = init
+    return r
+
+
+def elem_of(fn, nid):
+    pos = fn.positions()
+    if nid not in pos:
+        return None
+    b, i = pos[nid]
+    el = fn.blocks[b]['elems']
+    return el[i] if i < len(el) else None
+
+
+def must_hit(fb, fn, hit, abnormal, depth=4, memo=None, stack=None):
+    """None when every normal path from the entry of fn to its exit executes an element containing a node with hit(fn, node), or a
+    call of an osmium:: function all of whose bodies do (private helper = its body inlined).  Else a witness path."""
+    memo = memo if memo is not None else {}
+    stack = stack if stack is not None else set()
+    if id(fn) in memo:
+        return memo[id(fn)]
+    if id(fn) in stack or depth < 0 or not fn.has_cfg:
+        return ['recursion/depth']
+    stack.add(id(fn))
+    targets = hit_elems(fb, fn, hit, abnormal, depth, memo, stack)
+    stack.discard(id(fn))
+    w = flow.path_search(fn, fn.entry, lambda e: isinstance(e, tuple) and e[0] == 'exit', lambda e: e in targets or abnormal(fn, e),
+                         from_block_start=True)
+    memo[id(fn)] = w
+    return w
+
+
+def hit_elems(fb, fn, hit, abnormal, depth=4, memo=None, stack=None):
+    """Elements of fn that contain a node with hit(fn, node) or a call whose callee must_hit."""
+    memo = memo if memo is not None else {}
+    stack = stack if stack is not None else set()
+    out = set()
+    for n in fn.all_nodes():
+        ok = bool(hit(fn, n))
+        if not ok and n.get('k') == 'call' and n.get('u') and n.get('q', '').startswith('osmium::'):
+            gs = bodies(fb, n)
+            ok = bool(gs) and all(must_hit(fb, g, hit, abnormal, depth - 1, memo, stack) is None for g in gs)
+        if ok:
+            e = elem_of(fn, n['id'])
+            if e is not None:
+                out.add(e)
+    return out
+
+
+def deep_subtree(fn, nid, depth=2):
+    """fn.subtree(nid) plus the initialisers of single-assignment locals mentioned in it (named sub-expressions)."""
+    out = []
+    seen = set()
+    work = [(nid, depth)]
+    while work:
+        x, d = work.pop()
+        for y in fn.subtree(x):
+            if y in seen:
+                continue
+            seen.add(y)
+            out.append(y)
+            n = fn.nodes[y]
+            if d > 0 and n.get('k') == 'var' and n.get('vk') == 'local':
+                init = _single_init(fn, n['d'])
+                if init is not None:
+                    work.append((init, d - 1))
     return out
